@@ -117,7 +117,23 @@ Definition params_ok (P : params) : Prop :=
   g_alias P = 9 /\ g_encoding P = 6 /\ g_endian P = 5 /\ g_frameoffset P = 1 /\ g_hidden P = 9 /\
   g_include P = 3 /\ g_namespace P = 10 /\ g_protect P = 6 /\ g_reference P = 6 /\ g_version P = 5 /\
   g_slash P = 5 /\ g_barth P = 7 /\ g_nsname P = 10 /\ g_nsaffix P = 10 /\ g_fo_base0 P = 9 /\
-  prm_leak_parent P = 9 /\ prm_leak_child P = 9 /\ prm_ns_pop P = true.
+  prm_leak_parent P = 9 /\ prm_leak_child P = 9 /\ prm_ns_pop P = true /\ prm_nullns P = true.
+
+(* the code stores "" where a fragment included with a null namespace tag
+   ("/INCLUDE f .") has no root namespace of its own: NULL and "" are the same
+   (null) namespace *)
+Definition norm_ns (o : option str) : option str := match o with Some [] => None | x => x end.
+Definition norm_frag (f : frag) : frag :=
+  {| f_set := f_set f; f_ns := norm_ns (f_ns f); f_px := f_px f; f_sx := f_sx f;
+     f_parent := f_parent f; f_index := f_index f; f_dir := f_dir f |}.
+
+Definition norm_po (po : preout) : preout :=
+  {| po_frags := map norm_frag (po_frags po); po_entries := po_entries po; po_ref := po_ref po |}.
+Definition norm_pre (r : res preout) : res preout :=
+  match r with Ok po => Ok (norm_po po) | Err => Err | Unspec => Unspec end.
+
+Lemma opt_str_norm : forall o, opt_str (norm_ns o) = opt_str o.
+Proof. destruct o as [[|]|]; auto. Qed.
 
 (* phi = what the enclosing fragments contribute: the last /REFERENCE seen before
    this fragment was entered, and whether a Standards Version was already in force *)
@@ -125,7 +141,8 @@ Definition Rel (phi : option str * bool) (a : ist) (b : sst) : Prop :=
   i_ent a = s_ent b /\ i_first a = first_raw (s_ent b) /\ i_nfrag a = s_nfrag b /\
   i_level a = s_depth b /\
   p_std (i_p a) = sv_std (s_ver b) /\ p_ped (i_p a) = sv_strict (s_ver b) /\ p_ns (i_p a) = s_cur b /\
-  i_f a = s_frag b /\ s_lastref b = or_else (i_ref a) (fst phi) /\ i_kids a = s_kids b /\
+  norm_frag (i_f a) = s_frag b /\ s_lastref b = or_else (i_ref a) (fst phi) /\
+  map norm_frag (i_kids a) = s_kids b /\
   (snd phi = true -> sv_strict (s_ver b) = true).
 
 Lemma pvers_ge_sv : forall p v x, p_std p = sv_std v -> p_ped p = sv_strict v -> pvers_ge p x = sv_ge v x.
@@ -143,9 +160,29 @@ Proof.
   - apply N.leb_gt in E1. apply N.ltb_lt in E2. lia.
 Qed.
 
+Definition frag_ns (r : str) : option str := match r with [] => None | n :: l => Some (n :: l) end.
+
+Lemma rel_frag_facts : forall f b, norm_frag f = s_frag b ->
+  f_set f = eff (s_inh b) (s_own b) /\ f_px f = chain_px (s_chain b) /\ f_sx f = chain_sx (s_chain b) /\
+  opt_str (f_ns f) = s_root b /\ norm_ns (f_ns f) = frag_ns (s_root b) /\
+  f_index f = s_index b /\ f_parent f = s_parent b /\ f_dir f = s_dir b.
+Proof.
+  intros f b H.
+  assert (E : forall (A : Type) (g : frag -> A), g (norm_frag f) = g (s_frag b)) by (intros; rewrite H; auto).
+  repeat split.
+  - apply (E _ f_set).
+  - apply (E _ f_px).
+  - apply (E _ f_sx).
+  - rewrite <- opt_str_norm. pose proof (E _ (fun x => opt_str (f_ns x))) as E4. simpl in E4. rewrite E4. apply opt_str_root.
+  - apply (E _ f_ns).
+  - apply (E _ f_index).
+  - apply (E _ f_parent).
+  - apply (E _ f_dir).
+Qed.
+
 Ltac dRel H := destruct H as (Rent & Rfirst & Rnfrag & Rlevel & Rstd & Rped & Rns & Rf & Rref & Rkids & Rmono).
 Ltac dPok H := destruct H as (Pprot & Poff & Penc & Pmax & Pstd & Galias & Genc & Gend & Gfo & Ghid & Ginc & Gns &
-                              Gprot & Gref & Gver & Gslash & Gbarth & Gnsname & Gnsaffix & Gfo0 & Pleakp & Pleakc & Pnspop).
+                              Gprot & Gref & Gver & Gslash & Gbarth & Gnsname & Gnsaffix & Gfo0 & Pleakp & Pleakc & Pnspop & Pnullns).
 
 Section Concrete.
   Variable P : params.
@@ -155,8 +192,8 @@ Section Concrete.
     i_namef P a tok = s_namef b tok.
   Proof.
     intros phi a b tok HR Hp. pose proof HP as HP'. dPok HP'. dRel HR.
-    unfold i_namef, s_namef. rewrite Rf, Rstd, Rped, Rns. unfold s_frag; simpl.
-    rewrite opt_str_root. rewrite Gnsname. rewrite nons_name.
+    destruct (rel_frag_facts _ _ Rf) as (Fset & Fpx & Fsx & Fns & Fnn & Fidx & Fpar & Fdir).
+    unfold i_namef, s_namef. rewrite Fpx, Fsx, Fns, Rstd, Rped, Rns. rewrite Gnsname. rewrite nons_name.
     apply build_code_agrees. right. unfold plain_name in Hp. apply andb_true_iff in Hp. destruct Hp as [H1' H2'].
     split. apply negb_true_iff; auto. intros _. apply negb_true_iff; auto.
   Qed.
@@ -165,8 +202,8 @@ Section Concrete.
     i_codef a tok = s_codef b tok.
   Proof.
     intros phi a b tok HR Hp. dRel HR.
-    unfold i_codef, s_codef. rewrite Rf, Rstd, Rped, Rns. unfold s_frag; simpl.
-    rewrite opt_str_root. rewrite nons_code. f_equal.
+    destruct (rel_frag_facts _ _ Rf) as (Fset & Fpx & Fsx & Fns & Fnn & Fidx & Fpar & Fdir).
+    unfold i_codef, s_codef. rewrite Fpx, Fsx, Fns, Rstd, Rped, Rns. rewrite nons_code. f_equal.
     apply build_code_agrees. right. unfold plain_code in Hp. split. apply negb_true_iff; auto. intros; discriminate.
   Qed.
 End Concrete.
@@ -323,11 +360,14 @@ Section Concrete2.
   Qed.
 
   Lemma frag_index_eq : forall phi a b, Rel phi a b -> f_index (i_f a) = s_index b.
-  Proof. intros. dRel H. rewrite Rf. reflexivity. Qed.
+  Proof. intros. dRel H. apply (rel_frag_facts _ _ Rf). Qed.
 
   Ltac scoped_case Rf :=
     eexists; split; [reflexivity|]; unfold Rel; simpl; repeat split; auto;
-    rewrite Rf; unfold s_frag, set_sett, eff; simpl; rewrite fold_left_app; reflexivity.
+    destruct (rel_frag_facts _ _ Rf) as (Fset & Fpx & Fsx & Fns & Fnn & Fidx & Fpar & Fdir);
+    unfold frag_ns in Fnn;
+    unfold norm_frag, set_sett, s_frag; simpl; rewrite Fset, Fnn, Fpx, Fsx, Fpar, Fidx, Fdir;
+    unfold eff; rewrite fold_left_app; reflexivity.
 
   Lemma simple_sim : forall phi l a b,
     (match l with LInclude _ _ => False | _ => True end) -> okl l = true ->
@@ -383,7 +423,6 @@ Section Concrete2.
 End Concrete2.
 
 (* ------------------------------------------------------ /INCLUDE: enter *)
-Definition frag_ns (r : str) : option str := match r with [] => None | n :: l => Some (n :: l) end.
 
 Lemma chain_px_app : forall c px sx, chain_px (c ++ [(px, sx)]) = chain_px c ++ px.
 Proof. intros. unfold chain_px. rewrite map_app, concat_app. simpl. rewrite app_nil_r. auto. Qed.
@@ -416,46 +455,39 @@ Section Concrete3.
     destruct (invalid_field (n :: px) 0 (sv_std v) (sv_strict v) VF_AFFIX); auto.
   Qed.
 
-  Lemma join_frag_ns : forall root nsv, nsv <> [] ->
-    match frag_ns root with
-    | None => Some nsv
-    | Some fns => Some (match nsv with [] => fns | _ => fns ++ cDOT :: nsv end)
-    end = frag_ns (join_ns root nsv).
-  Proof.
-    intros. destruct root; simpl.
-    - destruct nsv; try congruence. reflexivity.
-    - destruct nsv; try congruence. reflexivity.
-  Qed.
-
   Lemma ns_sim : forall p f v root cur pxin,
-    p_std p = sv_std v -> p_ped p = sv_strict v -> p_ns p = cur -> f_ns f = frag_ns root ->
-    dotns_tok pxin = false ->
+    p_std p = sv_std v -> p_ped p = sv_strict v -> p_ns p = cur -> norm_ns (f_ns f) = frag_ns root ->
     match sa_ns v root cur pxin with
-    | Ok (root', px) => exists nb, ia_ns P p f pxin = Ok (frag_ns root', px, nb)
+    | Ok (root', px) => exists nb ns', ia_ns P p f pxin = Ok (ns', px, nb) /\ norm_ns ns' = frag_ns root'
     | Err => ia_ns P p f pxin = Err
     | Unspec => True
     end.
   Proof.
-    intros p f v root cur pxin Hs Hp Hn Hf Hd. pose proof HP as HP'. dPok HP'.
-    unfold sa_ns, ia_ns. rewrite Gnsaffix. rewrite (pvers_ge_sv _ v); auto.
+    intros p f v root cur pxin Hs Hp Hn Hf. pose proof HP as HP'. dPok HP'.
+    unfold sa_ns, ia_ns. rewrite Gnsaffix, Pnullns. rewrite (pvers_ge_sv _ v); auto.
+    assert (J : forall nsv,
+      norm_ns (match f_ns f with
+               | None => Some nsv
+               | Some fns => if true && isnil fns then Some nsv
+                             else Some (match nsv with [] => fns | _ => fns ++ cDOT :: nsv end)
+               end) = frag_ns (join_ns root nsv)).
+    { intros nsv. destruct (f_ns f) as [[|f0 fr]|]; simpl in Hf; destruct root; try discriminate; simpl;
+        destruct nsv; simpl; auto; inversion Hf; subst; auto. }
     destruct (sv_ge v 10).
-    - rewrite Hs, Hp, Hn, Hf.
+    - rewrite Hs, Hp, Hn.
       destruct pxin as [|c0 t].
-      + (* no third token *)
-        destruct cur as [|c1 cur'].
-        * eexists; reflexivity.
+      + destruct cur as [|c1 cur'].
+        * eexists; eexists; split; [reflexivity | auto].
         * destruct (invalid_field (c1 :: cur') 0 (sv_std v) (sv_strict v) VF_NS); auto.
-          eexists. destruct root; simpl; rewrite ?andb_false_r; reflexivity.
-      + unfold dotns_tok in Hd.
-        destruct (split_incl_token (c0 :: t)) as [[[nsv whole]|] px] eqn:ST.
-        * destruct nsv as [|n0 nsv']; [discriminate|].
-          destruct (invalid_field whole 0 (sv_std v) (sv_strict v) VF_NS); auto.
-          eexists. destruct root; simpl; rewrite ?andb_false_r; reflexivity.
+          eexists; eexists; split; [reflexivity | apply J].
+      + destruct (split_incl_token (c0 :: t)) as [[[nsv whole]|] px] eqn:ST.
+        * destruct (invalid_field whole 0 (sv_std v) (sv_strict v) VF_NS); auto.
+          eexists; eexists; split; [reflexivity | apply J].
         * destruct cur as [|c1 cur'].
-          -- eexists; reflexivity.
+          -- eexists; eexists; split; [reflexivity | auto].
           -- destruct (invalid_field (c1 :: cur') 0 (sv_std v) (sv_strict v) VF_NS); auto.
-             eexists. destruct root; simpl; rewrite ?andb_false_r; reflexivity.
-    - destruct root; auto. destruct cur; auto. eexists. reflexivity.
+             eexists; eexists; split; [reflexivity | apply J].
+    - destruct root; auto. destruct cur; auto. eexists; eexists; split; [reflexivity | reflexivity].
   Qed.
 
   Lemma enter_sim : forall phi i sub a b, okl (LInclude i sub) = true ->
@@ -464,6 +496,7 @@ Section Concrete3.
     intros phi i sub a b Hok HR. pose proof HP as HP'. dPok HP'.
     pose proof (dir_ok_eq P HP phi a b (g_include P) HR) as HD. rewrite Ginc in HD.
     dRel HR. unfold impl_enter, spec_enter. rewrite Ginc, HD.
+    destruct (rel_frag_facts _ _ Rf) as (Fset & Fpx & Fsx & Fns & Fnn & Fidx & Fpar & Fdir).
     destruct (s_dir_ok (s_ver b) 3); cbn [negb]; [| reflexivity].
     rewrite Pmax, Rlevel.
     change (Nat.leb 32 (S (s_depth b))) with (Nat.leb 31 (s_depth b)).
@@ -473,22 +506,19 @@ Section Concrete3.
                  p_enc := t_enc (f_set (i_f a)); p_end := t_end (f_set (i_f a)) |}).
     pose proof (sx_sim p (i_f a) (s_ver b) (in_sx i) Rstd Rped) as HS.
     destruct (sa_affix (s_ver b) (in_sx i)) as [sx| |]; simpl; auto; rewrite HS; simpl; auto.
-    assert (Hfn : f_ns (i_f a) = frag_ns (s_root b)). { rewrite Rf. reflexivity. }
-    simpl in Hok. apply negb_true_iff in Hok.
-    pose proof (ns_sim p (i_f a) (s_ver b) (s_root b) (s_cur b) (in_px i) Rstd Rped Rns Hfn Hok) as HN.
+    pose proof (ns_sim p (i_f a) (s_ver b) (s_root b) (s_cur b) (in_px i) Rstd Rped Rns Fnn) as HN.
     destruct (sa_ns (s_ver b) (s_root b) (s_cur b) (in_px i)) as [[root' px]| |]; simpl; auto.
     2:{ rewrite HN. auto. }
-    destruct HN as (nb & HN). rewrite HN. simpl.
+    destruct HN as (nb & ns' & HN & HN2). rewrite HN. simpl.
     pose proof (px_sim p (i_f a) (s_ver b) px Rstd Rped) as HX.
     destruct (sa_affix (s_ver b) px) as [px'| |]; simpl; auto; rewrite HX; simpl; auto.
     eexists; split; [reflexivity|].
     unfold Rel, nextphi; simpl. rewrite Pnspop, Penc, Poff, Pprot. rewrite orb_true_r.
     repeat split; auto.
-    unfold s_frag; simpl. rewrite Rf. unfold s_frag; simpl.
+    unfold norm_frag, s_frag; simpl. rewrite HN2, Fset, Fpx, Fsx, Fidx, Fdir, Rnfrag. unfold frag_ns.
     f_equal; auto;
       try (destruct (eff (s_inh b) (s_own b)); reflexivity);
-      try (destruct px', sx; simpl; rewrite ?chain_px_app, ?chain_sx_app, ?app_nil_r; auto; fail);
-      try (rewrite Rnfrag; auto).
+      try (destruct px', sx; simpl; rewrite ?chain_px_app, ?chain_sx_app, ?app_nil_r; auto; fail).
   Qed.
 End Concrete3.
 
@@ -530,7 +560,7 @@ Section Concrete4.
     destruct (leave_ver_eq (s_ver b) (s_ver b2) Rmono2) as [E1 E2].
     unfold Rel; simpl. repeat split; auto.
     - rewrite Rref2, Rref. apply or_else_assoc.
-    - rewrite Rkids, Rf2, Rkids2. reflexivity.
+    - rewrite map_app. simpl. rewrite Rkids, Rf2, Rkids2. reflexivity.
     - intros Hs. specialize (Rmono Hs).
       destruct (s_ver b) as [s|]; try discriminate. destruct (s_ver b2) as [w|].
       + simpl. destruct (9 <=? w); auto. destruct (9 <=? s); auto.
@@ -553,17 +583,17 @@ Section Concrete4.
   Qed.
 
   (* scope_agrees: wherever the Standards define the outcome, the directive
-     interpreter of the code computes it *)
+     interpreter of the code computes it (root namespaces "" and NULL identified) *)
   Theorem pre_agrees : forall t, tree_plain t = true ->
     match interp_spec_pre t with
     | Unspec => True
-    | r => interp_impl_pre P t = r
+    | r => norm_pre (interp_impl_pre P t) = r
     end.
   Proof.
     intros t Ht. unfold interp_spec_pre, interp_impl_pre.
     pose proof (run_sim t (None, false) (impl_init P) spec_init Ht init_rel) as H.
     unfold rel_res in H. destruct (spec_run t spec_init) as [b| |]; simpl; auto.
-    - destruct H as (a & Ha & HR). rewrite Ha. simpl. dRel HR.
+    - destruct H as (a & Ha & HR). rewrite Ha. simpl. dRel HR. unfold norm_po. simpl.
       rewrite Rf, Rkids, Rent. f_equal. f_equal.
       simpl in Rref. rewrite Rref. destruct (i_ref a); simpl; auto. rewrite Rfirst. auto.
     - rewrite H. auto.
